@@ -318,12 +318,24 @@ def r12_4(ctx, rc):
                         x.call.func.attr in ('append', 'add') and
                         isinstance(x.call.func.value, ast.Name) and
                         x.call.func.value.id == argname]
+                def same_source(coll, fn_, cn_):
+                    # the collection asked is a view of the very list that
+                    # is appended to (derived from the same getter call)
+                    o1 = {o[1] for o in ctx.H.origins(
+                        coll, fn_, cn_, stop=lambda n: n.startswith(
+                            'BuildDirs.')) if o[0] == 'call'}
+                    o2 = {o[1] for o in ctx.H.origins(
+                        call.args[0], S, cn, stop=lambda n: n.startswith(
+                            'BuildDirs.')) if o[0] == 'call' and
+                        str(o[1]).startswith('BuildDirs.')}
+                    return bool(o1) and o1 <= o2
                 for ap in apps:
                     odd = []
                     for pol, atom, fn_, cn_ in Q.control_facts(sgs, ap.id):
                         good = isinstance(atom, ast.Compare) and len(
                             atom.ops) == 1 and isinstance(
-                                atom.ops[0], ast.In) and pol == 'F'
+                                atom.ops[0], ast.In) and pol == 'F' and \
+                            same_source(atom.comparators[0], fn_, cn_)
                         if not good:
                             odd.append('%s is %s' % (
                                 ast.unparse(atom)[:50], pol))
@@ -518,17 +530,41 @@ def r12_6(ctx, rc):
     for caller, call in sites:
         b = prog.bind_args(call, init)
         cn = ctx.H.node_of(caller, call)[0]
-        ps = init.params
+        # by field, not by position: the constructor parameters that flow
+        # into the initial value of each set
+        def params_into(field):
+            ps_ = set()
+            found = False
+            for st in ast.walk(init.node):
+                if isinstance(st, ast.Assign) and any(
+                        isinstance(t, ast.Attribute) and t.attr == field
+                        for t in st.targets):
+                    found = True
+                    cns_ = [x for x in ctx.E.cfgs.get(init).nodes
+                            if x.ast is st]
+                    v = ctx.H.subst(st.value, init, cns_[0]) if cns_ \
+                        else st.value
+                    ps_ |= {n.id for n in ast.walk(v) if isinstance(
+                        n, ast.Name) and n.id in init.params}
+            if not found:
+                raise AnalysisError('BuildDirs.__init__ does not '
+                                    'initialise .' + field)
+            return ps_
         want = {
-            ps[0]: ({'cache.created_dirs'}, 'the old cache\'s directories'),
-            ps[1]: ({'cache.created_files', 'normalised-api-path'},
-                    'the old cache\'s files and the cache file'),
+            '_maybe_removed_dirs': ({'cache.created_dirs'},
+                                    'the old cache\'s directories'),
+            '_removed_files': ({'cache.created_files',
+                                'normalised-api-path'},
+                               'the old cache\'s files and the cache file'),
         }
-        for p, (need, what) in want.items():
+        for field, (need, what) in want.items():
             key = 'BuildDirs seeded with ' + what
-            a = b.get(p)
-            tags = c03._origin_tags(ctx, a, caller, cn) if a is not None \
-                else set()
+            p = field
+            tags = set()
+            for pn in sorted(params_into(field)):
+                a = b.get(pn)
+                if a is not None and not isinstance(a, list):
+                    tags |= c03._origin_tags(ctx, a, caller, cn)
             if need <= tags:
                 rc.ok({'param': p, 'origins': sorted(tags)}, key=key)
             else:
@@ -565,6 +601,14 @@ def r12_8(ctx, rc):
     r2_9(ctx, rc)
 
 
+def r12_10(ctx, rc):
+    """Directories a failed set-up had already created are handed off for
+    removal (R14.3): otherwise they stay on disk unrecorded and no later
+    clean can know about them."""
+    from .c14 import r14_3
+    r14_3(ctx, rc)
+
+
 RULES = [
     ('R12.1', 'what clean can touch', r12_1),
     ('R12.2', 'nothing before validation, nothing without a cache file',
@@ -581,4 +625,6 @@ RULES = [
     ('R12.8', 'a failed cache write keeps the previous cache file', r12_8),
     ('R12.9', 'removed-directory knowledge: vanished, reserved, memoised',
      r12_9),
+    ('R12.10', 'partially created directories are handed off (R14.3)',
+     r12_10),
 ]
